@@ -26,6 +26,9 @@ pub struct Case {
     pub seps: Vec<u8>,
     /// per formula variable: None = no entry in the weights file, Some((low k, high k)) = k/8
     pub weights: Vec<Option<(u8, u8)>>,
+    /// when set, every listed weight pair is normalised: high = k/8 (k <= 8), low = 1 - high
+    #[serde(default)]
+    pub normalised: bool,
     /// names that occur only in the weights file
     pub extra: Vec<(String, u8, u8)>,
     /// None = no config; Some(keys) = full permutation of all names
@@ -110,7 +113,11 @@ pub fn run_case(case: &Case, st: &mut Stats) -> CaseResult {
     for (i, nm) in used.iter().enumerate() {
         let v = case.names.iter().position(|x| x == nm).unwrap();
         if let Some(Some((l, h))) = case.weights.get(v) {
-            let (l, h) = ((*l % 41) as f64 / 8.0, (*h % 41) as f64 / 8.0);
+            let (l, h) = if case.normalised {
+                (1.0 - (*h % 9) as f64 / 8.0, (*h % 9) as f64 / 8.0)
+            } else {
+                ((*l % 41) as f64 / 8.0, (*h % 41) as f64 / 8.0)
+            };
             w[i] = (l, h);
             wobj.insert(nm.clone(), json!({"low": l, "high": h}));
         }
@@ -121,7 +128,11 @@ pub fn run_case(case: &Case, st: &mut Stats) -> CaseResult {
         while used.contains(&nm) || extras.iter().any(|e| e.0 == nm) {
             nm.push('x');
         }
-        let (l, h) = ((*l % 41) as f64 / 8.0, (*h % 41) as f64 / 8.0);
+        let (l, h) = if case.normalised {
+            (1.0 - (*h % 9) as f64 / 8.0, (*h % 9) as f64 / 8.0)
+        } else {
+            ((*l % 41) as f64 / 8.0, (*h % 41) as f64 / 8.0)
+        };
         wobj.insert(nm.clone(), json!({"low": l, "high": h}));
         extras.push((nm, l, h));
     }
@@ -297,6 +308,8 @@ pub fn run_case(case: &Case, st: &mut Stats) -> CaseResult {
     st.flag("wmc.config_order", order_names.is_some());
     st.flag("wmc.missing_weight", (0..m).any(|i| w[i] == (0.0, 0.0)));
     st.flag("wmc.level_skipping", skips);
+    st.flag("wmc.listed_weights_normalised", case.normalised);
+    st.flag("wmc.normalised_but_missing_entry", case.normalised && (0..m).any(|i| w[i] == (0.0, 0.0)));
     if m >= 3 && skips && nonnorm {
         st.mark_nontrivial();
     }
@@ -306,7 +319,7 @@ pub fn run_case(case: &Case, st: &mut Stats) -> CaseResult {
 impl SubCheckT for Tools {
     type Case = Case;
     const NAME: &'static str = "tools";
-    const RULE: &'static str = "the three binaries built from /repo (feature cli, dev profile) run as subprocesses on generated files: weighted_model_count -f F -w W [-c CFG] in single-count mode with an s-expression formula (<=5 names), dyadic non-normalised weights for a random subset of its names plus 0..2 names that occur only in the weights file, and no config or a full permutation of all names: printed unweighted count = number of models over all variables, printed weighted count = exact sum over those models of the weight products ((0,0) for names without weights), compared after parsing the two labelled stdout lines; bottomup_formula_to_bdd (linear / manual order) and bottomup_cnf_to_bdd (auto_minfill / auto_force; >=1 clause, no empty clause for FORCE): stdout JSON read by the harness's reader denotes the input formula. Non-trivial: >=3 variables, the formula's BDD skips a level on some path under the order used, and some weight pair with low+high != 1";
+    const RULE: &'static str = "the three binaries built from /repo (feature cli, dev profile) run as subprocesses on generated files: weighted_model_count -f F -w W [-c CFG] in single-count mode with an s-expression formula (<=5 names), dyadic weights (non-normalised, or all listed pairs normalised) for a random subset of its names plus 0..2 names that occur only in the weights file, and no config or a full permutation of all names: printed unweighted count = number of models over all variables, printed weighted count = exact sum over those models of the weight products ((0,0) for names without weights), compared after parsing the two labelled stdout lines; bottomup_formula_to_bdd (linear / manual order) and bottomup_cnf_to_bdd (auto_minfill / auto_force; >=1 clause, no empty clause for FORCE): stdout JSON read by the harness's reader denotes the input formula. Non-trivial: >=3 variables, the formula's BDD skips a level on some path under the order used, and some weight pair with low+high != 1";
     fn cases(tier: Tier) -> u32 {
         tier.pick(400, 8000)
     }
@@ -317,7 +330,8 @@ impl SubCheckT for Tools {
                     ex_strategy(nv, 4),
                     names_strategy(nv as usize),
                     proptest::collection::vec(any::<u8>(), 1..8),
-                    proptest::collection::vec(proptest::option::weighted(0.85, (0u8..41, 0u8..41)), nv as usize),
+                    proptest::collection::vec(proptest::option::weighted(0.8, (0u8..41, 0u8..41)), nv as usize),
+                    prop_oneof![3 => Just(false), 2 => Just(true)],
                     proptest::collection::vec(("[a-z]{1,3}", 0u8..41, 0u8..41), 0..=2),
                     proptest::option::weighted(0.5, proptest::collection::vec(any::<u16>(), 8)),
                     (1u8..=6).prop_flat_map(|n| clauses_strategy(n, 8, 0, 4)).prop_map(|clauses| CnfCase { clauses }),
@@ -325,11 +339,12 @@ impl SubCheckT for Tools {
                     proptest::option::weighted(0.5, proptest::collection::vec(any::<u16>(), 8)),
                 )
             })
-            .prop_map(|(ex, names, seps, weights, extra, order_keys, cnf, cnf_order_force, manual_order)| Case {
+            .prop_map(|(ex, names, seps, weights, normalised, extra, order_keys, cnf, cnf_order_force, manual_order)| Case {
                 ex,
                 names,
                 seps,
                 weights,
+                normalised,
                 extra,
                 order_keys,
                 cnf,
@@ -350,6 +365,7 @@ pub fn property() -> Property {
     Property {
         id: "C19",
         subs: vec![sub::<Tools>()],
+        fuzz: vec![],
         assumptions: vec![
             "output format relied on: the lines 'unweighted model count: N' and 'weighted model count: X' (f64 Display round-trips exactly); the converters print one JSON object on stdout",
             "weights are dyadic k/8 <= 5 so that every sum and product is exact in f64 and compared with ==",
